@@ -220,7 +220,53 @@ fn build_doc(ti: usize, idx: &[usize], ci: usize, enc: &'static encoding_rs::Enc
     (doc, start, t.len(), ns)
 }
 
+/// Listed finding `integration-point-left-at-same-name-end-tag`: an HTML element inside the HTML
+/// content of an integration point that is named like the integration point; at its end tag the
+/// namespace simulation (keyed on end-tag names) leaves the integration point, so what follows is
+/// treated as foreign content. (prefix, suffix, namespace the implementation assumes)
+const FINDING_CTX: &[(&str, &str, Ns)] = &[
+    ("<svg><desc><desc>y</desc>", "</desc></svg>", Ns::Svg),
+    ("<svg><foreignObject><p><foreignobject></foreignobject></p>", "</foreignObject></svg>", Ns::Svg),
+    ("<math><mi><mi>y</mi>", "</mi></math>", Ns::MathMl),
+    ("<math><mtext><b><mtext></mtext></b>", "</mtext></math>", Ns::MathMl),
+];
+const FINDING_NAMES: &[&str] = &["a", "x-long-custom-element", "input", "A"];
+
+fn finding_doc(fi: usize, ni: usize, idx: &[usize]) -> (Vec<u8>, usize, usize) {
+    let mut tag = format!("<{}", FINDING_NAMES[ni]);
+    for &i in idx {
+        tag.push_str(PIECES[i]);
+    }
+    tag.push('>');
+    let (pre, post, _) = FINDING_CTX[fi];
+    let mut doc = pre.as_bytes().to_vec();
+    let start = doc.len();
+    doc.extend_from_slice(tag.as_bytes());
+    doc.extend_from_slice(b"x");
+    doc.extend_from_slice(post.as_bytes());
+    (doc, start, tag.len())
+}
+
+/// Returns (message, matches the as-implemented reading) when the documented reading fails.
+fn finding_check(p: &Prepared, fi: usize, ni: usize, idx: &[usize], cut: Option<usize>) -> (Option<(String, bool)>, usize) {
+    let (doc, start, len) = finding_doc(fi, ni, idx);
+    let cut = cut.map(|c| start + c);
+    let (m, calls, _) = check_read(p, &doc, start, len, Ns::Html, cut);
+    match m {
+        None => (None, calls),
+        Some(msg) => {
+            let (m2, calls2, _) = check_read(p, &doc, start, len, FINDING_CTX[fi].2, cut);
+            (Some((format!("`{}`: {msg}", lossy(&doc)), m2.is_none())), calls + calls2)
+        }
+    }
+}
+
 pub fn replay(case: &Value) -> Option<String> {
+    if case["kind"].as_str() == Some("ipfind") {
+        let idx: Vec<usize> = serde_json::from_value(case["pieces"].clone()).ok()?;
+        let p = Prepared::new(base_cfg("UTF-8", lookup_ops(encoding_rs::UTF_8))).ok()?;
+        return finding_check(&p, case["ctx"].as_u64()? as usize, case["name"].as_u64()? as usize, &idx, case["cut"].as_u64().map(|c| c as usize)).0.map(|x| x.0);
+    }
     let ti = case["name"].as_u64()? as usize;
     let idx: Vec<usize> = serde_json::from_value(case["pieces"].clone()).ok()?;
     let ci = case["context"].as_u64()? as usize;
@@ -326,6 +372,37 @@ pub fn run_check(ctx: &Ctx) -> i32 {
     });
     if !ctx.capped.load(std::sync::atomic::Ordering::Relaxed) {
         ctx.level_done(&format!("5 tag names x pieces<={max} (and {} further names: every void element, case variants, near misses, ordinary names x pieces<=2) x 8 contexts x 3 encodings x every cut inside the tag; 9 edits + re-read up to pieces<={}", NAMES.len() - DEEP_NAMES, if max > 3 { max - 1 } else { max }));
+    }
+    // the listed finding's own slice: every tag <= 2 pieces directly after an HTML element that is
+    // named like the enclosing integration point
+    {
+        let p = Prepared::new(base_cfg("UTF-8", lookup_ops(encoding_rs::UTF_8))).unwrap();
+        let n2 = crate::alpha::count_upto(PIECES.len(), 2);
+        par_for(n2 * FINDING_CTX.len() * FINDING_NAMES.len(), 8, |j| {
+            let fi = j % FINDING_CTX.len();
+            let ni = (j / FINDING_CTX.len()) % FINDING_NAMES.len();
+            let mut idx = vec![];
+            crate::alpha::seq_at(j / FINDING_CTX.len() / FINDING_NAMES.len(), PIECES.len(), &mut idx);
+            let (doc, start, len) = finding_doc(fi, ni, &idx);
+            if expectation(&doc[start..start + len], Ns::Html, encoding_rs::UTF_8).is_none() {
+                return;
+            }
+            for cut in std::iter::once(None).chain((1..len).map(Some)) {
+                let (m, calls) = finding_check(&p, fi, ni, &idx, cut);
+                ctx.exec(calls);
+                ctx.validated(1);
+                if let Some((msg, as_implemented)) = m {
+                    let case = json!({"kind": "ipfind", "ctx": fi, "name": ni, "pieces": idx, "cut": cut, "doc_lossy": lossy(&doc)});
+                    let c2 = case.clone();
+                    if as_implemented {
+                        ctx.known_or_violation("integration-point-left-at-same-name-end-tag", msg, case, &|| replay(&c2));
+                    } else {
+                        ctx.violation(msg, case, &|| replay(&c2));
+                    }
+                }
+            }
+        });
+        ctx.level_done("4 contexts with an HTML element named like the enclosing integration point x 4 tag names x pieces<=2 x every cut (listed finding: classified against the as-implemented namespace)");
     }
     ctx.finish(
         "model_checking",
